@@ -123,6 +123,7 @@ func runCheck(repo, verif, prop, tier string, seed int) int {
 		timeout = 60
 	}
 	e := newEngine(repo, verif)
+	e.callProbes = thorough || os.Getenv("GOWP_CALL_PROBES") != ""
 	outBase := verif
 	if sc := os.Getenv("GOWP_SCRATCH"); sc != "" {
 		outBase = sc
